@@ -795,7 +795,10 @@ fn run_program(prog: &Prog, mode: &str, strategy: Strategy, sseed: u64, stats: &
     {
         let cfg = &prog.cfg;
         let max_w: u64 = evs.iter().filter_map(|e| if let COp::Insert { w, .. } = e.op { Some(if cfg.weigher { w as u64 } else { 1 }) } else { None }).max().unwrap_or(1);
-        let roomy = cfg.cap.map(|c| c >= keys as u64 * max_w.max(1)).unwrap_or(true);
+        // "No capacity pressure possible" must hold even transiently: while a Remove op is queued
+        // behind a later insert of the same key, the invalidated entry and its successor are both
+        // counted, so every key can weigh twice for a moment.
+        let roomy = cfg.cap.map(|c| c >= 2 * keys as u64 * max_w.max(1)).unwrap_or(true);
         let now_q = sh.now();
         let iter_keys: HashSet<u32> = sh.cache.iter().map(|e| e.key().id).collect();
         for k in 0..keys {
@@ -817,9 +820,15 @@ fn run_program(prog: &Prog, mode: &str, strategy: Strategy, sseed: u64, stats: &
                 }
                 stats.inc("quiescent_must_live_keys_judged");
                 let got = finals.iter().find(|f| f.0 == k).and_then(|f| f.1);
+                if got != Some(last.vid) && std::env::var("MMV_DEBUG").is_ok() {
+                    for e in &evs {
+                        eprintln!("t{} {:<16} vid {} call {} ret {} res {:?} clock {}..{}", e.tid, e.op.text(), e.vid, e.call, e.ret, e.result, e.clock_call, e.clock_ret);
+                    }
+                    eprintln!("snapshot: {:#?}", sh.snapshot());
+                }
                 if got != Some(last.vid) {
                     out.violations.push(Violation {
-                        props: vec!["C03", "C07", "C02"],
+                        props: vec!["C03", "C07", "C02", "C16"],
                         sig: "concurrent:live-value-lost".into(),
                         detail: format!(
                             "after all threads stopped, key {} must hold {} (its last, unambiguous operation; inserted at clock >= {}, now {}, no capacity pressure possible) but get returned {:?}",
@@ -1032,11 +1041,16 @@ fn gen_chase_prog(rng: &mut Rng, scale: u64) -> Prog {
     let writers = rng.range(1, 2) as usize;
     let readers = rng.range(2, 4) as usize;
     let mut threads = Vec::new();
+    if cfg.weigher {
+        cfg.cap = *rng.pick(&[Some(300u64), Some(8), Some(4)]);
+    }
     for _ in 0..writers {
         let mut ops = Vec::new();
         for _ in 0..rng.range(60, 200) * scale {
             let k = rng.below(keys as u64) as u32;
-            ops.push(COp::Insert { k, w: 1 });
+            // size-aware caches: the same key keeps changing its weight
+            let w = if cfg.weigher { *rng.pick(&[1u32, 1, 1, 2, 100]) } else { 1 };
+            ops.push(COp::Insert { k, w });
             match rng.below(6) {
                 0 | 1 => ops.push(COp::InvalidateAll),
                 2 => ops.push(COp::Invalidate { k }),
@@ -1051,6 +1065,10 @@ fn gen_chase_prog(rng: &mut Rng, scale: u64) -> Prog {
             ops.push(COp::Get { k: rng.below(keys as u64) as u32 });
         }
         threads.push(ops);
+    }
+    if rng.chance(1, 2) {
+        // a thread that keeps running the maintenance explicitly, beside the nested runs
+        threads.push((0..rng.range(50, 200) * scale).map(|_| COp::Sync).collect());
     }
     Prog { cfg, threads }
 }
